@@ -75,7 +75,7 @@ fn emergency(first: &Option<PanicInfo>, second: &PanicInfo) -> ! {
         "abort:double-panic:{}",
         first.as_ref().map(panic_sig).unwrap_or_else(|| panic_sig(second))
     );
-    let dir = format!("/verif/replays/{prop}");
+    let dir = format!("{}/replays/{prop}", root());
     let _ = std::fs::create_dir_all(&dir);
     let path = format!("{dir}/{engine}-abort-{:016x}.json", fnv_str(&sig));
     let body = format!(
@@ -265,4 +265,9 @@ pub mod hexbytes {
         let s = String::deserialize(d)?;
         Ok(super::unhex(&s))
     }
+}
+
+/// Root of the verification tree: FV_ROOT (set by the driver to its own directory) or /verif.
+pub fn root() -> String {
+    std::env::var("FV_ROOT").ok().filter(|s| !s.is_empty()).unwrap_or_else(|| "/verif".into())
 }
